@@ -162,3 +162,22 @@ Proof.
     rewrite Nat.div_add_l by lia. rewrite (Nat.div_small (nx - 1) nx) by lia. rewrite Nat.add_0_r.
     rewrite !steps_value_last by assumption. reflexivity.
 Qed.
+
+(* an ascending range is strictly increasing, a descending one strictly decreasing *)
+Lemma steps_value_increasing s e n i j : (2 <= n)%nat -> s < e -> (i < j)%nat ->
+  steps_value Rops s e n i < steps_value Rops s e n j.
+Proof.
+  intros Hn Hse Hij. rewrite !steps_value_affine by exact Hn.
+  assert (Hd : 0 < steps_division_width Rops s e n).
+  { unfold steps_division_width; cbn [Rops o_sub o_div o_nat]. pose proof (INR_pred_pos n Hn). apply Rdiv_lt_0_compat; lra. }
+  apply lt_INR in Hij. nra.
+Qed.
+Lemma steps_value_decreasing s e n i j : (2 <= n)%nat -> e < s -> (i < j)%nat ->
+  steps_value Rops s e n j < steps_value Rops s e n i.
+Proof.
+  intros Hn Hse Hij. rewrite !steps_value_affine by exact Hn.
+  assert (Hd : steps_division_width Rops s e n < 0).
+  { unfold steps_division_width; cbn [Rops o_sub o_div o_nat]. pose proof (INR_pred_pos n Hn).
+    assert (Hi : 0 < / INR (n - 1)) by (apply Rinv_0_lt_compat; lra). unfold Rdiv. nra. }
+  apply lt_INR in Hij. nra.
+Qed.
